@@ -185,10 +185,10 @@ fn flag_sets(tier: Tier) -> Vec<PFlags> {
         PFlags { max_count: Some(2), ..d.clone() },
         PFlags { crlf: true, ..d.clone() },
         PFlags { multiline: true, max_count: Some(1), ..d.clone() },
+        PFlags { multiline: true, crlf: true, ..d.clone() },
     ];
     if tier == Tier::Thorough {
         v.extend([
-            PFlags { multiline: true, crlf: true, ..d.clone() },
             PFlags { multiline: true, dotall: true, ..d.clone() },
             PFlags { invert: true, max_count: Some(1), ..d.clone() },
             PFlags { word: true, multiline: true, ..d.clone() },
